@@ -78,6 +78,7 @@ def report_signature(errtext):
         kind = "asan:other"
         start = errtext.find("AddressSanitizer")
     frames = []
+    probe_frames = []
     seen_first = False
     for fm in FRAME_RE.finditer(errtext, start):
         idx = int(fm.group(1))
@@ -85,12 +86,15 @@ def report_signature(errtext):
             break                       # the next stack (allocation / free site) starts
         seen_first = True
         fn = fm.group(2)
-        if SKIP_FUNC.search(fn) or fn.startswith("hp_") or fn in ("main", "nlv_prelude_main"):
+        if SKIP_FUNC.search(fn) or fn in ("main", "nlv_prelude_main"):
+            continue
+        if fn.startswith("hp_"):
+            probe_frames.append("probe:" + fn)     # the probe touched what the runtime handed out
             continue
         frames.append(normalise_func(fn))
         if len(frames) == 3:
             break
-    return kind, frames
+    return kind, frames or probe_frames[:2]
 
 
 def san_key(sig):
@@ -489,6 +493,8 @@ def program_verdict(nanoc_r, built, r):
     sig = report_signature(r.errtext())
     if sig is not None and sig[0] != "ABRT":
         return "san", r.sanitizer_report() or r.errtext()[-3000:], sig
+    if r.cpu_exceeded:
+        return "inconclusive:cpu", None, None
     return "ran", None, sig
 
 
